@@ -566,7 +566,9 @@ class Watcher(object):
                              for process in processes_to_kill]
             for i, process in enumerate(processes_to_kill):
                 if removes[i]:
-                    self.processes.pop(process.pid)
+                    # collect it now: forgotten while still dying it would
+                    # stay a zombie until the next periodic check
+                    self.reap_process(process.pid)
 
     @gen.coroutine
     @util.debuglog
@@ -577,7 +579,7 @@ class Watcher(object):
         removes = yield [self.kill_process(x) for x in expired_processes]
         for i, process in enumerate(expired_processes):
             if removes[i]:
-                self.processes.pop(process.pid)
+                self.reap_process(process.pid)
 
     @gen.coroutine
     @util.debuglog
@@ -682,8 +684,7 @@ class Watcher(object):
                     # we still know about
                     self.loop.add_future(
                         self.kill_process(process),
-                        lambda f, pid=process.pid:
-                            self.processes.pop(pid, None))
+                        lambda f, pid=process.pid: self.reap_process(pid))
                     return False
 
             # catch ValueError as well, as a misconfigured rlimit setting could
@@ -1064,7 +1065,7 @@ class Watcher(object):
                         break
                     removed = yield self.kill_process(process)
                     if removed:
-                        self.processes.pop(process.pid, None)
+                        self.reap_process(process.pid)
         self.notify_event("reload", {"time": time.time()})
         logger.info('%s reloaded', self.name)
 
